@@ -253,4 +253,23 @@ PROPS = {
             {"name": "cancel", "test": "TestCancel", "checks": {Q: 64, T: 1600}, "shards": {Q: 8, T: 16}, "timeout": {Q: 500, T: 2400}, "shrinktime": "60s"},
         ],
     },
+    "C11": {
+        "pkg": "c11", "bin": True,
+        "technique": "rapid generator (names over printable ASCII, payload files, DAG positions) with a byte-exact round-trip oracle "
+                     "through the real runner and scheduler, in-process and through the binary",
+        "level_text": "The producer cats generated payload files (empty, multi-line, unicode, up to 64 KiB in total, no NUL) from 1..3 "
+                      "commands x 0..2 variations, optionally with an allowed failure in between; Task.Output() must equal the "
+                      "concatenation byte for byte and every transitive dependant in a generated DAG (declared dependants-first) must "
+                      "read exactly that text from <NAME>_OUTPUT, the name being computed by the oracle from the statement's rule "
+                      "(or exportAs). A chain task checks .Output command by command.",
+        "level_note": "Only stages that transitively depend on the producer are checked; consumers read with printenv, which appends one "
+                      "newline; CLI task names avoid '{' '}' (loaded names are rendered as templates) and a leading '-'.",
+        "rule": "rapid cases; non-trivial = name with a non-identifier byte, or output >= 4 KiB or multi-line, or >= 2 jobs; distinct = "
+                "canonical JSON of the case.",
+        "assumptions": ["total output <= 64 KiB so that it fits one environment string (128 KiB kernel limit)"],
+        "parts": [
+            {"name": "api", "test": "TestAPI", "checks": {Q: 3000, T: 60000}, "shards": {Q: 8, T: 16}, "timeout": {Q: 400, T: 2400}},
+            {"name": "cli", "test": "TestCLI", "checks": {Q: 320, T: 6000}, "shards": {Q: 8, T: 16}, "timeout": {Q: 400, T: 2400}},
+        ],
+    },
 }
